@@ -146,7 +146,7 @@ def turn_oracle(case, tc, to):
     for rid in cfg_out:
         chain.append((rid, cur))
         v = G.verdict_of(tc, "out", rid)
-        if v in ("r", "f"):
+        if v in ("r", "f", "x"):  # "x": the rail's own LLM call failed - the rail has not approved the message
             blocked = rid
             break
         if case["ver"] == "1.0" and G.is_rewrite(v):
